@@ -1,9 +1,11 @@
 #!/bin/bash
 # seedtest.sh <patch.diff> <prop>... : apply a seeded change to /repo, run the quick checks, undo it
 patch=$1; shift
+rm -rf /tmp/wt/ev-keep; cp -a /verif/evidence /tmp/wt/ev-keep   # evidence must come from the unchanged tree only
 git -C /repo apply $patch || { echo "apply failed"; exit 9; }
 for p in "$@"; do
   ( cd /verif && timeout 3000 ./check $p --tier ${TIER:-quick} 2>&1 | grep -v "^KNOWN-FINDING" | grep "VIOLATION\|INFRA\|Traceback" | head -5; echo "$p exit=${PIPESTATUS[0]}" )
 done
 git -C /repo checkout -- .
+cp -a /tmp/wt/ev-keep/. /verif/evidence/; rm -rf /tmp/wt/ev-keep
 git -C /repo status --short | head -3
